@@ -8,6 +8,7 @@ package distiller
 
 import (
 	"fmt"
+	"html"
 	"strings"
 	"testing"
 )
@@ -21,7 +22,8 @@ type govcC14Src struct {
 	hasArticle                                        bool
 	artPub, artMod, artExp, artSection                string
 	artAuthors                                        []string
-	head, body                                        string // markup to put into <head> / <body>
+	head, body                                        string   // markup to put into <head> / <body>
+	ims                                               []string // when non-nil: the complete expected image list (instead of the single `im`)
 }
 
 func govcC14Meta(attr, name, content string) string {
@@ -174,84 +176,204 @@ func TestGovcMarkupReplay(t *testing.T) {
 	evals, nontrivial := 0, 0
 	defer func() {
 		fmt.Printf("GOVC-CASES evaluations=%d distinct_nontrivial=%d rule=%s\n", evals, nontrivial,
-			"9 OpenGraph states (absent, complete, minimal, profile, one required property missing/empty) x 4 schema.org states x 4 IE Reading View states x 4 opt-out variants, unique values per source; oracle = per-field first non-empty in the order OG(valid only), schema.org, IE; non-trivial = at least one source present in the page")
+			"9 OpenGraph states (absent, complete, minimal, profile, one required property missing/empty) x 4 schema.org states x 4 IE Reading View states x 4 opt-out variants, unique values per source; plus 14 value shapes of the URL-valued properties (https, protocol-relative, root-relative, relative, ../, query strings, upper-case scheme, surrounding white space, inner space, data: URI, bare word, port+userinfo) x 8 targets (og:image / og:url / both, schema.org image / url / both as meta or as link+img, all) x 4 OpenGraph states x 2 schema.org states, and 8 multi-image OpenGraph blocks (several og:image, og:image:url overrides, mixed shapes) x 2 x 2; oracle = per-field first non-empty in the order OG(valid only), schema.org, IE, surrounding white space ignored; non-trivial = at least one source present in the page")
 	}()
+	type optOut struct {
+		key, meta string
+		out       bool
+	}
+	eval := func(key string, og, sc, ie govcC14Src, oo optOut) {
+		src := `<html><head><title>Plain document title for the page</title>` + og.head + sc.head + ie.head + oo.meta +
+			`</head><body><div id="main">` + sc.body + ie.body + govcC14Prose + `</div></body></html>`
+		res, err := ApplyForReader(strings.NewReader(src), nil)
+		evals++
+		if err != nil {
+			t.Errorf("GOVC-FAIL %s :: precedence case returned error %v", key, err)
+			return
+		}
+		if og.head != "" || sc.body != "" || ie.head != "" || ie.body != "" {
+			nontrivial++
+		}
+		got := res.MarkupInfo
+		if evals <= 3 {
+			fmt.Printf("GOVC-SAMPLE %s -> Title=%q Type=%q URL=%q Author=%q Article=%+v images=%d\n", key, got.Title, got.Type, got.URL, got.Author, got.Article, len(got.Images))
+		}
+
+		// expected value per field
+		srcs := []govcC14Src{og, sc, ie}
+		type field struct{ name, got, want string }
+		fields := []field{
+			{"Title", got.Title, govcC14First(srcs, func(s govcC14Src) string { return s.title })},
+			{"Type", got.Type, govcC14First(srcs, func(s govcC14Src) string { return s.typ })},
+			{"URL", got.URL, govcC14First(srcs, func(s govcC14Src) string { return s.url })},
+			{"Description", got.Description, govcC14First(srcs, func(s govcC14Src) string { return s.desc })},
+			{"Publisher", got.Publisher, govcC14First(srcs, func(s govcC14Src) string { return s.pub })},
+			{"Copyright", got.Copyright, govcC14First(srcs, func(s govcC14Src) string { return s.copyright })},
+			{"Author", got.Author, govcC14First(srcs, func(s govcC14Src) string { return s.author })},
+		}
+		gotImages := []string{}
+		for _, im := range got.Images {
+			gotImages = append(gotImages, strings.TrimSpace(im.URL))
+		}
+		wantImages := []string{}
+		for _, s := range srcs { // the image list of the first usable source that has images
+			if !s.usable {
+				continue
+			}
+			if s.ims != nil {
+				for _, u := range s.ims {
+					wantImages = append(wantImages, strings.TrimSpace(u))
+				}
+			} else if s.im != "" {
+				wantImages = append(wantImages, strings.TrimSpace(s.im))
+			}
+			if len(wantImages) > 0 {
+				break
+			}
+		}
+		fields = append(fields, field{"Images", strings.Join(gotImages, ","), strings.Join(wantImages, ",")})
+		var art govcC14Src
+		for _, s := range srcs {
+			if s.usable && s.hasArticle {
+				art = s
+				break
+			}
+		}
+		fields = append(fields,
+			field{"Article.PublishedTime", got.Article.PublishedTime, art.artPub},
+			field{"Article.ModifiedTime", got.Article.ModifiedTime, art.artMod},
+			field{"Article.ExpirationTime", got.Article.ExpirationTime, art.artExp},
+			field{"Article.Section", got.Article.Section, art.artSection},
+			field{"Article.Authors", strings.Join(got.Article.Authors, ","), strings.Join(art.artAuthors, ",")},
+		)
+		for _, f := range fields {
+			want := f.want
+			if oo.out {
+				want = ""
+			}
+			// surrounding white space of a value is not significant (schema.org values are trimmed by their source)
+			if strings.TrimSpace(f.got) != strings.TrimSpace(want) {
+				if oo.out {
+					t.Errorf("GOVC-FAIL %s/%s :: page opts out (%s) but MarkupInfo.%s = %q; precedence rule demands an entirely empty MarkupInfo", key, f.name, oo.meta, f.name, f.got)
+				} else {
+					t.Errorf("GOVC-FAIL %s/%s :: MarkupInfo.%s = %q, precedence OpenGraph(valid)>schema.org>IE demands %q", key, f.name, f.name, f.got, want)
+				}
+			}
+		}
+		if oo.out && (len(got.Images) != 0 || len(got.Article.Authors) != 0) {
+			t.Errorf("GOVC-FAIL %s/lists :: page opts out but MarkupInfo has %d images and %d article authors; precedence rule demands an entirely empty MarkupInfo", key, len(got.Images), len(got.Article.Authors))
+		}
+	}
 	for _, ogs := range ogStates {
 		for _, scs := range schemaStates {
 			for _, ies := range ieStates {
 				for _, oo := range optOuts {
-					og, sc, ie := govcC14OG(ogs), govcC14Schema(scs), govcC14IE(ies)
 					key := fmt.Sprintf("og-%s/schema-%s/ie-%s/optout-%s", ogs, scs, ies, oo.key)
-					src := `<html><head><title>Plain document title for the page</title>` + og.head + sc.head + ie.head + oo.meta +
-						`</head><body><div id="main">` + sc.body + ie.body + govcC14Prose + `</div></body></html>`
-					res, err := ApplyForReader(strings.NewReader(src), nil)
-					evals++
-					if err != nil {
-						t.Errorf("GOVC-FAIL %s :: precedence case returned error %v", key, err)
-						continue
-					}
-					if ogs != "absent" || scs != "absent" || ies != "absent" {
-						nontrivial++
-					}
-					got := res.MarkupInfo
-					if evals <= 3 {
-						fmt.Printf("GOVC-SAMPLE %s -> Title=%q Type=%q URL=%q Author=%q Article=%+v images=%d\n", key, got.Title, got.Type, got.URL, got.Author, got.Article, len(got.Images))
-					}
-
-					// expected value per field
-					srcs := []govcC14Src{og, sc, ie}
-					type field struct{ name, got, want string }
-					fields := []field{
-						{"Title", got.Title, govcC14First(srcs, func(s govcC14Src) string { return s.title })},
-						{"Type", got.Type, govcC14First(srcs, func(s govcC14Src) string { return s.typ })},
-						{"URL", got.URL, govcC14First(srcs, func(s govcC14Src) string { return s.url })},
-						{"Description", got.Description, govcC14First(srcs, func(s govcC14Src) string { return s.desc })},
-						{"Publisher", got.Publisher, govcC14First(srcs, func(s govcC14Src) string { return s.pub })},
-						{"Copyright", got.Copyright, govcC14First(srcs, func(s govcC14Src) string { return s.copyright })},
-						{"Author", got.Author, govcC14First(srcs, func(s govcC14Src) string { return s.author })},
-					}
-					wantImage := govcC14First(srcs, func(s govcC14Src) string { return s.im })
-					gotImages := []string{}
-					for _, im := range got.Images {
-						gotImages = append(gotImages, im.URL)
-					}
-					wantImages := []string{}
-					if wantImage != "" {
-						wantImages = append(wantImages, wantImage)
-					}
-					fields = append(fields, field{"Images", strings.Join(gotImages, ","), strings.Join(wantImages, ",")})
-					var art govcC14Src
-					for _, s := range srcs {
-						if s.usable && s.hasArticle {
-							art = s
-							break
-						}
-					}
-					fields = append(fields,
-						field{"Article.PublishedTime", got.Article.PublishedTime, art.artPub},
-						field{"Article.ModifiedTime", got.Article.ModifiedTime, art.artMod},
-						field{"Article.ExpirationTime", got.Article.ExpirationTime, art.artExp},
-						field{"Article.Section", got.Article.Section, art.artSection},
-						field{"Article.Authors", strings.Join(got.Article.Authors, ","), strings.Join(art.artAuthors, ",")},
-					)
-					for _, f := range fields {
-						want := f.want
-						if oo.out {
-							want = ""
-						}
-						if f.got != want {
-							if oo.out {
-								t.Errorf("GOVC-FAIL %s/%s :: page opts out (%s) but MarkupInfo.%s = %q; precedence rule demands an entirely empty MarkupInfo", key, f.name, oo.meta, f.name, f.got)
-							} else {
-								t.Errorf("GOVC-FAIL %s/%s :: MarkupInfo.%s = %q, precedence OpenGraph(valid)>schema.org>IE demands %q", key, f.name, f.name, f.got, want)
-							}
-						}
-					}
-					if oo.out && (len(got.Images) != 0 || len(got.Article.Authors) != 0) {
-						t.Errorf("GOVC-FAIL %s/lists :: page opts out but MarkupInfo has %d images and %d article authors; precedence rule demands an entirely empty MarkupInfo", key, len(got.Images), len(got.Article.Authors))
-					}
+					eval(key, govcC14OG(ogs), govcC14Schema(scs), govcC14IE(ies), optOut{oo.key, oo.meta, oo.out})
 				}
 			}
 		}
+	}
+
+	// ---- value shapes of the URL-valued properties (appended; the keys above are unchanged) ----
+	// The precedence rule only asks whether a source provides a non-empty value, so the outcome must not
+	// depend on what the value looks like.
+	none := optOut{"none", "", false}
+	for _, sh := range govcC14Shapes {
+		for _, target := range []string{"og-image", "og-url", "og-both", "schema-image", "schema-url", "schema-both", "schema-both-elem", "all"} {
+			for _, ogs := range []string{"complete", "minimal", "profile", "absent"} {
+				for _, scs := range []string{"complete", "absent"} {
+					onOG := strings.HasPrefix(target, "og-") || target == "all"
+					onSchema := strings.HasPrefix(target, "schema-") || target == "all"
+					if (ogs == "absent" && scs == "absent") || (target != "all" && ((onOG && ogs == "absent") || (onSchema && scs == "absent"))) {
+						continue
+					}
+					og, sc, ie := govcC14OG(ogs), govcC14Schema(scs), govcC14IE("complete")
+					if scs == "complete" && strings.HasSuffix(target, "-elem") {
+						sc.body = strings.Replace(sc.body, govcC14Meta("itemprop", "url", "http://schema.example/page"), `<link itemprop="url" href="http://schema.example/page">`, 1)
+						sc.body = strings.Replace(sc.body, govcC14Meta("itemprop", "image", "http://schema.example/img.png"), `<img itemprop="image" src="http://schema.example/img.png">`, 1)
+					}
+					if onOG && ogs != "absent" {
+						if target != "og-url" {
+							govcC14Reshape(&og, "http://og.example/img.png", sh.make("og.example", "img.png"))
+						}
+						if target != "og-image" {
+							govcC14Reshape(&og, "http://og.example/page", sh.make("og.example", "page"))
+						}
+					}
+					if onSchema && scs != "absent" {
+						if target != "schema-url" {
+							govcC14Reshape(&sc, "http://schema.example/img.png", sh.make("schema.example", "img.png"))
+						}
+						if target != "schema-image" {
+							govcC14Reshape(&sc, "http://schema.example/page", sh.make("schema.example", "page"))
+						}
+					}
+					eval(fmt.Sprintf("shape-%s/target-%s/og-%s/schema-%s", sh.name, target, ogs, scs), og, sc, ie, none)
+				}
+			}
+		}
+	}
+	// several og:image entries, structured og:image:url overrides, mixed value shapes
+	abs, abs2, rel, prel := "http://og.example/one.png", "https://og.example/two.png", "/media/three.png", "//cdn.og.example/four.png"
+	img := func(u string) string { return govcC14Meta("property", "og:image", u) }
+	imgURL := func(u string) string { return govcC14Meta("property", "og:image:url", u) }
+	dims := govcC14Meta("property", "og:image:width", "1200") + govcC14Meta("property", "og:image:height", "630")
+	multis := []struct {
+		name, head string
+		want       []string
+	}{
+		{"two-abs", img(abs) + img(abs2), []string{abs, abs2}},
+		{"rel-then-abs", img(rel) + img(abs), []string{rel, abs}},
+		{"abs-then-rel", img(abs) + img(rel), []string{abs, rel}},
+		{"two-non-abs", img(rel) + dims + img(prel) + dims, []string{rel, prel}},
+		{"three-mixed", img(prel) + img("media/five.png") + dims + img(abs2), []string{prel, "media/five.png", abs2}},
+		{"struct-url-rel", img(abs) + imgURL(rel) + dims, []string{rel}},
+		{"struct-url-abs", img(rel) + imgURL(abs2), []string{abs2}},
+		{"struct-url-prel-twice", img(abs) + imgURL(prel) + img(abs2) + imgURL(rel), []string{prel, rel}},
+	}
+	for _, m := range multis {
+		for _, ogs := range []string{"complete", "minimal"} {
+			for _, scs := range []string{"complete", "absent"} {
+				og := govcC14OG(ogs)
+				og.head = strings.Replace(og.head, govcC14Meta("property", "og:image", "http://og.example/img.png"), m.head, 1)
+				og.ims = m.want
+				eval(fmt.Sprintf("multi-%s/og-%s/schema-%s", m.name, ogs, scs), og, govcC14Schema(scs), govcC14IE("complete"), none)
+			}
+		}
+	}
+}
+
+// govcC14Shapes are the shapes a URL-valued markup property is written in; make(host, file) gives the raw value.
+var govcC14Shapes = []struct {
+	name string
+	make func(host, file string) string
+}{
+	{"https", func(h, f string) string { return "https://" + h + "/" + f }},
+	{"proto-rel", func(h, f string) string { return "//cdn." + h + "/" + f }},
+	{"root-rel", func(h, f string) string { return "/media/" + h + "/" + f }},
+	{"rel", func(h, f string) string { return "media/" + h + "/" + f }},
+	{"dot-rel", func(h, f string) string { return "../" + h + "/" + f }},
+	{"abs-query", func(h, f string) string { return "http://" + h + "/" + f + "?w=1200&h=630#top" }},
+	{"rel-query", func(h, f string) string { return "/render.php?host=" + h + "&file=" + f }},
+	{"upper-scheme", func(h, f string) string { return "HTTP://" + strings.ToUpper(h) + "/" + f }},
+	{"padded-abs", func(h, f string) string { return "  http://" + h + "/" + f + " " }},
+	{"padded-rel", func(h, f string) string { return " /media/" + h + "/" + f + "\n" }},
+	{"space-inside", func(h, f string) string { return "http://" + h + "/my file " + f }},
+	{"data-uri", func(h, f string) string { return "data:image/png;base64," + strings.ReplaceAll(h+f, ".", "") + "==" }},
+	{"bare-word", func(h, f string) string { return strings.ReplaceAll(h, ".", "-") + "-" + f }},
+	{"port-userinfo", func(h, f string) string { return "http://user@" + h + ":8080/" + f }},
+}
+
+// govcC14Reshape replaces one canonical URL value of a source by `raw`, in its markup and in the expectation.
+func govcC14Reshape(s *govcC14Src, canonical, raw string) {
+	esc := html.EscapeString(raw)
+	s.head = strings.ReplaceAll(s.head, `"`+canonical+`"`, `"`+esc+`"`)
+	s.body = strings.ReplaceAll(s.body, `"`+canonical+`"`, `"`+esc+`"`)
+	if s.im == canonical {
+		s.im = raw
+	}
+	if s.url == canonical {
+		s.url = raw
 	}
 }
